@@ -158,9 +158,115 @@ fn ledger(rep: &mut Report) {
     rep.extra.insert("ledger".into(), Value::Object(out));
 }
 
+/// The one-shot functions are functions of the *contents* of their arguments: the same buffers
+/// (same address, same length) are overwritten in place with different contents between calls, and
+/// calls with different arguments are interleaved. A memo keyed on addresses or lengths, or any
+/// state carried from one call to the next, shows up here.
+fn purity(rep: &mut Report) {
+    let levels = subject::levels();
+    let a = vcommon::stream_a(70_000);
+    let b = vcommon::stream_b(subject::seed(), 70_000);
+    for (lname, level) in levels {
+        subject::force(Some(level));
+        for &n in &[0usize, 1, 64, 65, 1024, 1025, 4097, 65537] {
+            let mut input = vec![0u8; n];
+            let mut key = [0u8; 32];
+            for &clen in &[0usize, 1, 31, 47, 64, 1025] {
+                let mut ctx = String::with_capacity(clen + 8);
+                for round in 0..4usize {
+                    // overwrite all three argument buffers in place
+                    let src = if round % 2 == 0 { &a } else { &b };
+                    input.copy_from_slice(&src[round..round + n]);
+                    key.copy_from_slice(&src[100 + round..132 + round]);
+                    ctx.clear();
+                    for i in 0..clen {
+                        ctx.push((b'a' + ((i * 7 + round * 3) % 26) as u8) as char);
+                    }
+                    for kind in 0..3 {
+                        let m = match kind {
+                            0 => ModeSpec::Hash,
+                            1 => ModeSpec::Keyed(key),
+                            _ => ModeSpec::Derive(ctx.clone()),
+                        };
+                        let exp = b3spec::hash32(&m.spec(), &input);
+                        // call through the borrowed buffers themselves, not through copies
+                        let got = vcommon::catch(|| match kind {
+                            0 => *blake3::hash(&input).as_bytes(),
+                            1 => *blake3::keyed_hash(&key, &input).as_bytes(),
+                            _ => blake3::derive_key(&ctx, &input),
+                        });
+                        rep.inc("evaluations");
+                        rep.inc("distinct_nontrivial");
+                        rep.inc("spec_comparisons");
+                        rep.inc("purity_calls");
+                        if got != Ok(exp) {
+                            let mut rj = case_json(&m, "in-place", &lname, n);
+                            rj["purity"] = json!({"round": round, "context_len": clen});
+                            rep.violation(&format!("oneshot:{}:depends-on-call-history", m.json()["kind"].as_str().unwrap()),
+                                format!("{} of {} bytes gives a wrong result when the same argument buffers are reused with new contents (round {}, context length {}, level {})", m.json()["kind"], n, round, clen, lname), rj);
+                        }
+                        if kind == 2 {
+                            // and the incremental constructor shares the context hashing
+                            let g2 = vcommon::catch(|| *blake3::Hasher::new_derive_key(&ctx).update(&input).finalize().as_bytes());
+                            if g2 != Ok(exp) {
+                                let rj = case_json(&m, "in-place", &lname, n);
+                                rep.violation("new_derive_key:depends-on-call-history", format!("Hasher::new_derive_key with a reused context buffer (round {}, context length {})", round, clen), rj);
+                            }
+                        }
+                    }
+                }
+            }
+        }
+        subject::force(None);
+    }
+}
+
+/// Inputs beyond 2 GiB / 4 GiB (thorough tier, best level, hash mode): 32-bit truncations of
+/// lengths or offsets only show up here.
+fn huge(rep: &mut Report) {
+    let levels = subject::levels();
+    let (lname, level) = levels.last().unwrap().clone();
+    let lens: [usize; 4] = [(1usize << 31) - 1, (1usize << 31) + 1, (1usize << 32) - 1, (1usize << 32) + 1025];
+    let max = *lens.iter().max().unwrap();
+    let data: Vec<u8> = {
+        // 251-periodic paint, generated block-wise (stream_a is byte-wise and would take a while)
+        let period: Vec<u8> = (0..251 * 4096).map(|i| (i % 251) as u8).collect();
+        let mut v = Vec::with_capacity(max);
+        while v.len() < max {
+            let take = (max - v.len()).min(period.len());
+            v.extend_from_slice(&period[..take]);
+        }
+        v
+    };
+    let mode = ModeSpec::Hash;
+    let mut oracle = b3spec::StreamOracle::new(mode.spec(), Vec::new());
+    oracle.data = data;
+    subject::force(Some(level));
+    for &n in &lens {
+        let node = oracle.prefix(n);
+        let mut exp = [0u8; 32];
+        exp.copy_from_slice(&node.root_block(0)[..32]);
+        let got = vcommon::catch(|| mode.oneshot(&oracle.data[..n]));
+        rep.inc("evaluations");
+        rep.inc("distinct_nontrivial");
+        rep.inc("spec_comparisons");
+        rep.inc("huge_inputs");
+        if got != Ok(exp) {
+            let mut rj = case_json(&mode, "A", &lname, n);
+            rj["observed"] = json!(format!("{:?}", got.map(|h| vcommon::hex(&h))));
+            rep.violation("oneshot:hash:huge-input", format!("hash of {} bytes at {}: differs from the spec or panics", n, lname), rj);
+        }
+    }
+    subject::force(None);
+}
+
 pub fn run(args: &Args, rep: &mut Report) {
     let thorough = args.thorough();
     ledger(rep);
+    purity(rep);
+    if thorough {
+        huge(rep);
+    }
     let lens = lengths(thorough);
     let lite = lite_lengths();
     let streams = ["A", "B"];
@@ -213,7 +319,7 @@ pub fn run(args: &Args, rep: &mut Report) {
     rep.rule = format!(
         "every length 0..={} plus the lattice k*1024+d (k<={}, 2^j chunks j<={}, {{4,8,16}}*m chunks; d in -65,-64,-63,-1,0,1,63,64,65) \
          x streams A,B x primary modes (hash, keyed(test key), derive(test context)) x every forced SIMD level; secondary keys/contexts \
-         on {} lattice lengths; non-trivial = distinct (level, mode, stream, length) with length > 0",
+         on {} lattice lengths; a purity sweep that overwrites the same input / key / context buffers in place between calls; thorough: hash of 2^31+-1, 2^32-1 and 2^32+1025 bytes; non-trivial = distinct (level, mode, stream, length) with length > 0",
         full_range(thorough), if thorough { 2048 } else { 512 }, if thorough { 14 } else { 10 }, lite.len()
     );
     for (ti, l) in [(0usize, 0usize), (1, levels.len() - 1), (2, levels.len() / 2)] {
@@ -229,6 +335,15 @@ pub fn run(args: &Args, rep: &mut Report) {
 }
 
 pub fn replay(v: &Value) -> bool {
+    if v["purity"].is_object() {
+        let args = Args { prop: "C01".into(), tier: "quick".into(), seed: subject::seed(), report: String::new(), replay: None, jobs: 1, extra: Default::default() };
+        let mut rep = Report::new(&args, "replay", "exploration");
+        purity(&mut rep);
+        for x in rep.violations.iter().take(3) {
+            println!("violation {}: {}", x.key, x.summary);
+        }
+        return !rep.violations.is_empty();
+    }
     let mode = ModeSpec::from_json(&v["mode"]);
     let stream = v["stream"].as_str().unwrap_or("A");
     let level = v["config"]["level"].as_str().unwrap_or("");
